@@ -382,6 +382,12 @@ def check_heap_scheduler(src: Source, rep: Report, unit: CUnit) -> None:
                f"pickled state keeps {sorted(keep)}", f"the pickled state drops {sorted(deleted & keep)}")
         # entry iteration: index from 0, stops at NULL handler
         ent = _lib_calls(gs, aliases, "entry")
+        wl = [n for n in ast.walk(gs) if isinstance(n, ast.While)]
+        unconditional = bool(wl) and bool(appends) and any(isinstance(st, ast.Expr) and any(x is appends[0] for x in ast.walk(st)) for st in wl[0].body)
+        rep.ob("R6.6-dump-every-entry", unconditional, Loc(HEAP_PY, gs.lineno, f"{cls.name}.__getstate__"),
+               "heap_entries.append(...) unconditionally for every entry returned by the heap",
+               "every entry still stored in the C heap must be pickled (also trashed ones and ones tied with the last returned time): "
+               "a skipped live entry is an event that never happens in the resumed run")
         rep.ob("R6.6-iterates-all-entries", len(ent) == 1 and any(isinstance(n, ast.While) for n in ast.walk(gs)),
                Loc(HEAP_PY, gs.lineno, f"{cls.name}.__getstate__"), "while True: entry(index)", "all entries must be read out")
 
@@ -613,6 +619,10 @@ MUTANTS = [
     Edit("delete_events: cache slot past the end", HEAP_C, "heap->heap_entries[heap->length] = heap->heap_entries[index];",
          "heap->heap_entries[heap->length + 1] = heap->heap_entries[index];", "R6.2"),
 ]
+MUTANTS.append(Edit("pickle skips entries not later than the last returned event", HEAP_PY,
+                    "            index += 1\n            heap_entries.append(",
+                    "            index += 1\n            if Time(entry.time_quotient, entry.time_remainder) > self._last_returned_event[0]:\n                heap_entries.append(",
+                    "R6.6"))
 MUTANTS.append(Edit("delete_events: moved-in entry not re-examined", HEAP_C,
                     "            heap->heap_entries[current_index] = heap->heap_entries[--(heap->length)];\n            continue;\n",
                     "            heap->heap_entries[current_index] = heap->heap_entries[--(heap->length)];\n", "R6.4"))
